@@ -364,6 +364,11 @@ func (core JApiCore) addRequest(d *directive.Directive) *jerr.JApiError {
 		if s, err = catalog.UnmarshalJSightSchema("", bytes.Bytes(typ), core.userTypes, core.rules); err == nil {
 			err = core.catalog.AddRequestBody(s, bodyFormat, *d)
 		}
+		// The message alone, as for a response: the library's rendering speaks of "line 1" of a nameless file.
+		var e kit.Error
+		if errors.As(err, &e) {
+			return d.KeywordError(e.Message())
+		}
 
 	case sn == notation.SchemaNotationJSight && typ == "" && d.BodyCoords.IsSet():
 		if s, err = catalog.UnmarshalJSightSchema("", d.BodyCoords.Read(), core.userTypes, core.rules); err == nil {
